@@ -1,7 +1,7 @@
 (* C09 -- client correlates responses to requests strictly by message ID. *)
 From Coq Require Import ZArith List Bool.
 From Coq.Strings Require Import Byte.
-From SV Require Import Base.Bytes Base.Py Msg.Types Msg.Encode Sess.Model Sess.Drain Sess.Ids.
+From SV Require Import Base.Bytes Base.Py Msg.Types Msg.Encode Sess.Model Sess.Drain Sess.Ids Sess.Total.
 Import ListNotations.
 Local Open Scope Z_scope.
 
@@ -44,7 +44,15 @@ Theorem C09_retirement :
   (stays = false -> ~ In (m_id m) (s_outstanding s') /\ ~ In (m_id m) (s_searches s')).
 Proof. exact retirement. Qed.
 
+(* in every reachable open client state the search ids are outstanding ids, so the KeyError path of
+   the response bookkeeping is unreachable *)
+Theorem C09_searches_are_outstanding :
+  forall d r cs, let s := fst (run d (init r) cs) in
+  s_state s <> CLOSED -> s_role s = Client -> forall i, In i (s_searches s) -> In i (s_outstanding s).
+Proof. intros d r cs. exact (good_reachable d r cs). Qed.
+
 Print Assumptions C09_invariant_initially.
+Print Assumptions C09_searches_are_outstanding.
 Print Assumptions C09_request_ids.
 Print Assumptions C09_counter_moves_only_on_accepted_request.
 Print Assumptions C09_response_accepted_iff_in_progress.
